@@ -619,14 +619,22 @@ def gen_query(tp, m: Model, ids):
 BAD_ELEMENTS = ("Xx", 0, 119, -6, "carbon")
 
 
+def _fresh(x):
+    """an equal but separately created id (as a caller gets from parsing):
+    large ints are then distinct objects"""
+    return int(str(x)) if type(x) is int else x
+
+
 def apply_fault(g, f):
     """Issue the ill-formed request.  It is expected to raise."""
     k = f[0]
     if k == "add_bond":
-        g.add_bond(f[1], f[2])
+        g.add_bond(_fresh(f[1]), _fresh(f[2]))
     elif k == "add_role_bond":
         {"formed": g.add_formed_bond, "broken": g.add_broken_bond,
-         "fleeting": g.add_fleeting_bond}[f[3]](f[1], f[2])
+         "fleeting": g.add_fleeting_bond}[f[3]](_fresh(f[1]), _fresh(f[2]))
+    elif k == "add_atom_attrs":
+        g.add_atom(f[1], f[2], **f[3])
     elif k == "remove_atom":
         g.remove_atom(f[1])
     elif k == "remove_bond":
@@ -700,7 +708,7 @@ def fault_in_domain(m: Model, f):
             return len({d[1][0] for d in ds}) > 1
         return len({desc_bond(d) for d in ds}) > 1
     if tag == "#non-element":
-        if k == "add_atom":
+        if k in ("add_atom", "add_atom_attrs"):
             return f[2] in BAD_ELEMENTS
         return f[1] in A and f[2] == "atom_type" and f[3] in BAD_ELEMENTS
     if tag == "#role-type":
@@ -838,6 +846,13 @@ def gen_fault(tp, m: Model, ids):
         return ["set_atom_change", {r1: _fault_desc_atom(tp, m, x),
                                     r2: _fault_desc_atom(tp, m, y)}, tag]
     if kind == "non-element":
+        if a is not None and tp.chance(70):
+            # re-adding an existing atom with a bad type and more attributes
+            return ["add_atom_attrs", a, tp.pick(BAD_ELEMENTS),
+                    {tp.pick(ATTR_NAMES): tp.pick(ATTR_VALUES)}, tag]
+        if tp.chance(40):
+            return ["add_atom_attrs", u, tp.pick(BAD_ELEMENTS),
+                    {tp.pick(ATTR_NAMES): tp.pick(ATTR_VALUES)}, tag]
         if a is not None and tp.chance(128):
             return ["set_atom_attr", a, "atom_type", tp.pick(BAD_ELEMENTS),
                     tag]
@@ -891,6 +906,7 @@ def enumerate_faults(m: Model):
         if m.is_reaction:
             out.append(["add_role_bond", x, x, "formed", "#self-bond"])
         out.append(["set_atom_attr", x, "atom_type", "Xx", "#non-element"])
+        out.append(["add_atom_attrs", x, "Xx", {"k": 7}, "#non-element"])
         out.append(["del_atom_attr", x, "atom_type", "#delete-element"])
     for i, x in enumerate(A):
         for y in A[i + 1:]:
